@@ -162,6 +162,22 @@ add("C08", True, "exploration",
     "sub-domain excluded from the completeness clause only.",
     "DESIGN.md section 5, C08")
 
+add("C06", True, "fault_enumeration",
+    "Hypothesis-generated burst histories x per-datagram fault plans on a "
+    "fake network with a virtual clock, oracle = trace invariants",
+    "An SCPConnection runs over an in-process fake socket/select/time layer "
+    "(installed as module attributes, no hook in rig). For every transmitted "
+    "datagram a drawn fault decides: request lost, reply lost, delayed by "
+    "0-7.5 timeouts, duplicated, replaced by a retryable or fatal code; late "
+    "replies of one burst arrive in later bursts. The recorded trace is "
+    "checked for the window bound, retransmission timing/count/identity, "
+    "exactly-once callbacks with the command's own reply, and the three "
+    "outcomes; a step bound on select() decides termination. A separate "
+    "clause wraps the 16-bit sequence counter past an outstanding command.",
+    "Trusted: vf/sim/net.py. Requests are never duplicated/reordered by the "
+    "network itself. Fault plans are sampled, not enumerated exhaustively.",
+    "DESIGN.md section 5, C06")
+
 
 def main():
     checks = []
